@@ -90,3 +90,152 @@ pub fn big_disjoint<K: SimK, V: SimV>(cx: &mut Cx<K, V>, fill: u16, sel: u8) {
         violate("canary", "a guard word next to the 256-slot map changed".into());
     }
 }
+
+// ---------------------------------------------------------------- irreflexive zero-sized elements
+
+/// A zero-sized element that never equals anything, itself included (a lawful `PartialEq`, like NaN):
+/// a set can hold several of them, all at one address.
+pub struct NanZ;
+
+impl PartialEq for NanZ {
+    fn eq(&self, _: &Self) -> bool {
+        false
+    }
+}
+impl core::fmt::Debug for NanZ {
+    fn fmt(&self, f: &mut core::fmt::Formatter<'_>) -> core::fmt::Result {
+        f.pad("z")
+    }
+}
+impl core::fmt::Display for NanZ {
+    fn fmt(&self, f: &mut core::fmt::Formatter<'_>) -> core::fmt::Result {
+        f.pad("Z")
+    }
+}
+
+struct ZList(usize, bool);
+impl core::fmt::Debug for ZList {
+    fn fmt(&self, f: &mut core::fmt::Formatter<'_>) -> core::fmt::Result {
+        if self.1 {
+            f.debug_map().entries((0..self.0).map(|_| (NanZ, NanZ))).finish()
+        } else {
+            f.debug_set().entries((0..self.0).map(|_| NanZ)).finish()
+        }
+    }
+}
+
+macro_rules! spec_dbg {
+    ($sink:expr, $alt:expr, $spec:expr, $x:expr) => {{
+        use core::fmt::Write;
+        match ($alt, $spec % 8) {
+            (false, 0) => write!($sink, "{:?}", $x),
+            (false, 1) => write!($sink, "{:40?}", $x),
+            (false, 2) => write!($sink, "{:>40?}", $x),
+            (false, 3) => write!($sink, "{:*^40?}", $x),
+            (false, 4) => write!($sink, "{:.3?}", $x),
+            (false, 5) => write!($sink, "{:+?}", $x),
+            (false, 6) => write!($sink, "{:08?}", $x),
+            (false, _) => write!($sink, "{:<3?}", $x),
+            (true, 0) => write!($sink, "{:#?}", $x),
+            (true, 1) => write!($sink, "{:#40?}", $x),
+            (true, 2) => write!($sink, "{:>#40?}", $x),
+            (true, 3) => write!($sink, "{:*^#40?}", $x),
+            (true, 4) => write!($sink, "{:#.3?}", $x),
+            (true, 5) => write!($sink, "{:+#?}", $x),
+            (true, 6) => write!($sink, "{:#08?}", $x),
+            (true, _) => write!($sink, "{:<#3?}", $x),
+        }
+    }};
+}
+macro_rules! spec_disp {
+    ($sink:expr, $spec:expr, $x:expr) => {{
+        use core::fmt::Write;
+        match $spec % 8 {
+            0 => write!($sink, "{}", $x),
+            1 => write!($sink, "{:40}", $x),
+            2 => write!($sink, "{:>40}", $x),
+            3 => write!($sink, "{:*^40}", $x),
+            4 => write!($sink, "{:.3}", $x),
+            5 => write!($sink, "{:+}", $x),
+            6 => write!($sink, "{:08}", $x),
+            _ => write!($sink, "{:#}", $x),
+        }
+    }};
+}
+
+/// Display / Debug of a set (or map) of `n` irreflexive zero-sized elements into a healthy sink.
+pub fn fmt_irreflexive<K: SimK, V: SimV>(cx: &mut Cx<K, V>, n: u8, map: bool, style: crate::plan::Style, spec: u8) {
+    use crate::plan::Style;
+    let aw = cx.cfg.alloc_window;
+    let n = (n as usize).min(6);
+    cx.probe("format_irreflexive_zero_sized");
+    let mut sink = crate::sink::Sink::new(8192, None);
+    let r = if map {
+        let mut m: micromap::Map<NanZ, NanZ, 6> = micromap::Map::new();
+        for _ in 0..n {
+            win!(aw, m.insert(NanZ, NanZ));
+        }
+        if m.len() != n {
+            return;
+        }
+        match style {
+            Style::Display => win!(aw, spec_disp!(sink, spec, m)),
+            s => win!(aw, spec_dbg!(sink, s == Style::Alt, spec, m)),
+        }
+    } else {
+        let mut s: micromap::Set<NanZ, 6> = micromap::Set::new();
+        for _ in 0..n {
+            win!(aw, s.insert(NanZ));
+        }
+        if s.len() != n {
+            return;
+        }
+        match style {
+            Style::Display => win!(aw, spec_disp!(sink, spec, s)),
+            st => win!(aw, spec_dbg!(sink, st == Style::Alt, spec, s)),
+        }
+    };
+    let _p = crate::alloc::Pause::new();
+    let mut accept: Vec<String> = Vec::new();
+    match style {
+        Style::Display => {
+            let item = |fwd: bool| -> String {
+                let mut e = String::new();
+                if fwd {
+                    let _ = spec_disp!(e, spec, NanZ);
+                } else {
+                    e.push('Z');
+                }
+                e
+            };
+            for fwd in [false, true] {
+                let one = if map { format!("{}: {}", item(fwd), item(fwd)) } else { item(fwd) };
+                let lit = format!("{{{}}}", vec![one; n].join(", "));
+                if !accept.contains(&lit) {
+                    accept.push(lit.clone());
+                }
+                if !fwd {
+                    let mut padded = String::new();
+                    let _ = spec_disp!(padded, spec, lit.as_str());
+                    if !accept.contains(&padded) {
+                        accept.push(padded);
+                    }
+                }
+            }
+        }
+        s => {
+            let mut e = String::new();
+            let _ = spec_dbg!(e, s == Style::Alt, spec, ZList(n, map));
+            accept.push(e);
+        }
+    }
+    if r.is_err() || sink.failed {
+        if !sink.failed {
+            violate("wrong-text", format!("formatting {n} irreflexive zero-sized elements into a healthy sink reported an error"));
+        }
+        return;
+    }
+    if !accept.iter().any(|a| a == sink.text()) {
+        violate("wrong-text", format!("{} of {n} irreflexive zero-sized elements rendered {:?} instead of {:?}", if map { "a map" } else { "a set" }, sink.text(), accept[0]));
+    }
+}
